@@ -199,11 +199,13 @@ def main():
         out = []
         for n in ast.walk(f):
             if isinstance(n, ast.Call) and isinstance(n.func, ast.Name) and n.func.id == "isinstance":
-                c = n.args[1]
-                cname = c.attr if isinstance(c, ast.Attribute) else c.id if isinstance(c, ast.Name) else None
-                if cname is None or not hasattr(C, cname):
-                    raise Refused("%s: isinstance against an unknown class" % ".".join(path))
-                out.append((n.lineno, n.col_offset, CSSRule._typestrings[getattr(C, cname)().type]))
+                # isinstance(rule, X) or isinstance(rule, (X, Y, ...))
+                cs = n.args[1].elts if isinstance(n.args[1], ast.Tuple) else [n.args[1]]
+                for c in cs:
+                    cname = c.attr if isinstance(c, ast.Attribute) else c.id if isinstance(c, ast.Name) else None
+                    if cname is None or not hasattr(C, cname):
+                        raise Refused("%s: isinstance against an unknown class" % ".".join(path))
+                    out.append((c.lineno, c.col_offset, CSSRule._typestrings[getattr(C, cname)().type]))
         if not out:
             raise Refused("%s: no isinstance checks found" % ".".join(path))
         return [x[2] for x in sorted(out)]
